@@ -81,13 +81,20 @@ def main():
         print("patch does not apply to /repo HEAD:", out)
         sh(f"git -C /repo worktree remove --force {seed_wt}")
         return 2
-    env2 = f"VERIF_REPO={seed_wt} VERIF_BIN={seed_wt}.bin/vcheck VERIF_OUT={seed_wt}.out"
+    # snapshot of the committed /verif (so that edits in progress in /verif do not disturb the run)
+    vsnap = f"{seed_wt}.verif"
+    sh(f"git -C /verif worktree remove --force {vsnap}; rm -rf {vsnap}")
+    rc, out = sh(f"git -C /verif worktree add --detach {vsnap} HEAD")
+    if rc != 0:
+        print("cannot snapshot /verif:", out); return 2
+    meta["verif_commit"] = sh("git -C /verif rev-parse --short HEAD")[1].strip()
+    env2 = f"VERIF_DIR={vsnap} VERIF_REPO={seed_wt} VERIF_BIN={seed_wt}.bin/vcheck VERIF_OUT={seed_wt}.out"
     os.makedirs(f"{seed_wt}.bin", exist_ok=True)
     try:
         for p in [prop] + extra_props:
             for tier in tiers:
                 t0 = time.time()
-                rc, out = sh(f"{env2} ./run.sh {p} {tier}", cwd="/verif", timeout=7200)
+                rc, out = sh(f"{env2} ./run.sh {p} {tier}", cwd=vsnap, timeout=7200)
                 viol = [l for l in out.splitlines() if l.startswith("VIOLATION")]
                 meta["checks"][f"{p}:{tier}"] = {"exit": rc, "violations": len(viol), "first": [v[:400] for v in viol[:2]], "wall_s": round(time.time() - t0, 1)}
                 print(f"{name}: {p} {tier}: exit={rc} violations={len(viol)} {(viol[0][:260] if viol else '')}")
@@ -96,7 +103,7 @@ def main():
                 if rc == 1:
                     break  # caught; no need for deeper tier
     finally:
-        sh(f"git -C /repo worktree remove --force {seed_wt}; rm -rf {seed_wt} {seed_wt}.bin {seed_wt}.out; git -C /repo worktree prune")
+        sh(f"git -C /repo worktree remove --force {seed_wt}; git -C /verif worktree remove --force {vsnap}; rm -rf {seed_wt} {seed_wt}.bin {seed_wt}.out {vsnap}; git -C /repo worktree prune; git -C /verif worktree prune")
     caught = any(v["exit"] == 1 for v in meta["checks"].values())
     meta["caught"] = caught
     dst = os.path.join("/verif/seeded", name)
